@@ -546,9 +546,9 @@ func c19RawReplay(c *fw.Ctx, raw []byte) { c19Read(c, raw, "replay") }
 func init() {
 	ndays := int((c19EpochEnd-c19Epoch0)/86400) + 1
 	fw.Register(&fw.Monitor{
-		ID:    "C19",
-		Title: "IGC decoding is total; encode-then-decode keeps a track to format resolution",
-		Rule: "round trip: every day from 1970-01-01 to 2069-12-31 with fixes at 00:00:00, a random time, 23:59:59 and after the following midnight, plus random multi-day tracks of 1..200 fixes (steps 0 s..2.3 days) around year, 1999/2000, leap-day and month boundaries; positions incl. exactly +-180/+-90, 0, -0, just inside the limits and exact milli-minute multiples +-1e-9; altitude 0..10000 incl. fractional; checks: encoder's B records read column by column by an independent reader, decoded fix count, |lon|,|lat| error < 1/60000 degree, timestamp within 1 ms of the whole second, altitude == clamp(int(alt),0,10000), failing writer surfaces its error. decode side: hand-written seeds mutated (bytes, line deletion/duplication/swap), B records truncated at every length with and without extension tables, over-long lines, noise before the A record, forged I tables (every single-extension table over 00..99 x LAD/LOD/TDS), H DTE over all two-digit fields: no panic, Read calls <= 4*len+16, non-nil 5-dimensional track of whole fixes, error nil or igc.Errors. distinct_nontrivial = distinct dates / track shapes / decode outcomes",
+		ID:     "C19",
+		Title:  "IGC decoding is total; encode-then-decode keeps a track to format resolution",
+		Rule:   "round trip: every day from 1970-01-01 to 2069-12-31 with fixes at 00:00:00, a random time, 23:59:59 and after the following midnight, plus random multi-day tracks of 1..200 fixes (steps 0 s..2.3 days) around year, 1999/2000, leap-day and month boundaries; positions incl. exactly +-180/+-90, 0, -0, just inside the limits and exact milli-minute multiples +-1e-9; altitude 0..10000 incl. fractional; checks: encoder's B records read column by column by an independent reader, decoded fix count, |lon|,|lat| error < 1/60000 degree, timestamp within 1 ms of the whole second, altitude == clamp(int(alt),0,10000), failing writer surfaces its error. decode side: hand-written seeds mutated (bytes, line deletion/duplication/swap), B records truncated at every length with and without extension tables, over-long lines, noise before the A record, forged I tables (every single-extension table over 00..99 x LAD/LOD/TDS), H DTE over all two-digit fields: no panic, Read calls <= 4*len+16, non-nil 5-dimensional track of whole fixes, error nil or igc.Errors. distinct_nontrivial = distinct dates / track shapes / decode outcomes",
 		Assume: []string{"the property's arithmetic is its own reference; B-record columns per FAI IGC specification"},
 		Classes: []fw.Class{
 			{Name: "every-day", Quick: ndays, Thorough: ndays, Run: c19Days, Exhaustive: "every calendar day from 1970-01-01 to 2069-12-31"},
